@@ -130,6 +130,9 @@ def obligations(tier, seed=0):
                 obs.append((FE + 'near_point', dict(fn='atan', prec=prec, rnd=rnd, sign=sign, bc=3, mag=mag)))
             for prec, mag, bc in ((16, -15, 1), (16, -13, 2), (24, -23, 1), (24, -22, 1), (24, -20, 3), (24, -14, 3)):
                 obs.append((FE + 'near_point', dict(fn='exp1', prec=prec, rnd=rnd, sign=sign, bc=bc, mag=mag)))
+            # second order: log(1+t) = (t - t^2/2) + t^3/3 - ... with t - t^2/2 representable at the working precision (an instance
+            # of the open finding F22 for t > 0 rounded up)
+            obs.append((FE + 'near_point', dict(fn='log2', prec=24, rnd=rnd, sign=sign, bc=1, k=21)))
             # log-gamma next to the pole: -log|x| must mirror the mode
             obs.append((FE + 'loggamma_tiny', dict(prec=8, rnd=rnd, sign=sign)))
             # gamma next to its pole at 0 (x = +-2**-k, k symbolic in the regime of the pole shortcut)
